@@ -27,7 +27,7 @@ def instances(tier):
                       desc={"what": "transform_multiply, concrete left operand, right operand symbolic: within rounding of exact; FALSE iff overflow"}))
         L.append(Inst("multiply-right%d" % m, "C11/matrix.c", {"MODE": 3, "MAT_SEL_R": m}, timeout=1500 if tier == "thorough" else None, **kw,
                       desc={"what": "transform_multiply, concrete right operand, left operand symbolic"}))
-    for d in ((0, 1, 2, 3, 4, 5, 7, 8, 11, 13, 15) if tier == "quick" else (0, 1, 2, 3, 4, 5, 6, 7, 8, 11, 12, 13, 14, 15)):   # divisors 9, 10 (+-(2^48-1)): no verdict in 1500 s
+    for d in ((0, 1, 2, 3, 4, 5, 7, 8, 11, 13, 15) if tier == "quick" else (0, 1, 2, 3, 4, 5, 6, 7, 8, 11, 12, 13, 15)):   # divisors 9, 10 (+-(2^48-1)) and 14 (-(2^32)+1): no verdict in 1500 s
         L.append(Inst("sdiv128-div%d" % d, "C11/matrix.c", {"MODE": 4, "DIVSEL": d}, timeout=1500 if tier == "thorough" else 400, **kw,
                       desc={"what": "rounded_sdiv_128_by_49 with a concrete divisor (incl. +-2^48), 126-bit symbolic dividend: nearest quotient"}))
     L.append(Inst("constructors-translate-scale", "C11/matrix.c", {"MODE": 5}, **kw,
